@@ -530,3 +530,12 @@ def stored_values_come_back_through_the_member_codec(ctx):
     array of blobs is dropped as unusable)"""
     from sa.rules import c02
     c02.container_delegation(ctx)
+
+
+@rule('C17.R10', min_instances=3)
+def an_empty_stored_value_comes_back(ctx):
+    """shared with C02.R12: import_value of the sized types refuses by comparison with the declared limits only - `if not result:`
+    after decoding refuses the empty blob / string / array that was saved, loadPersistentData drops the entry as unusable and
+    the next save overwrites it with the default"""
+    from sa.rules import c02
+    c02.an_empty_value_is_not_refused_by_its_truth_value(ctx)
